@@ -347,7 +347,7 @@ def c02(ctx):
             # and - when the text is a transport-level refusal/time-out, which an overloaded machine produces by itself
             # (e.g. quic-go answers CONNECTION_REFUSED when its accept queue is full) - five times with pauses in between
             import time as _time
-            transportish = any(t in detail for t in ("CONNECTION_REFUSED", "connection refused", "i/o timeout", "handshake", "connection reset", "no recent network activity"))
+            transportish = any(t in detail for t in ("CONNECTION_REFUSED", "connection refused", "i/o timeout", "handshake", "connection reset", "no recent network activity", "broken pipe", "unexpected EOF", "use of closed network connection"))
             need = 5 if transportish else 2
             fails = 0
             for attempt in range(need):
